@@ -189,4 +189,135 @@ theorem loadPhases_inline (d : List (List Obj)) (upd : List Name) :
     simp only [inlineTwin, List.map_cons, loadPhases, loadSlices] at ih ⊢
     rw [ih]
 
+theorem decode_length {st : Store Name} : ∀ {t : Template Name} {d : List (List Obj)},
+    decode st t = some d → d.length = t.length := by
+  intro t
+  induction t with
+  | nil => intro d h; simp only [decode, Option.some.injEq] at h; subst h; rfl
+  | cons ph t ih =>
+    intro d h
+    simp only [decode] at h
+    cases hp : decodePhase st ph with
+    | none => simp [hp] at h
+    | some a =>
+      cases hd : decode st t with
+      | none => simp [hp, hd] at h
+      | some r =>
+        simp only [hp, hd, Option.some.injEq] at h
+        subst h
+        simp [ih hd]
+
+/-- Loading the inline twin (classes kept) does nothing. -/
+theorem loadPhases_inlineOf : ∀ (t : Template Name) (d : List (List Obj)) (upd : List Name),
+    d.length = t.length → loadPhases ([] : Store Name) upd (inlineTwinOf t d) = ([], upd, d, true) := by
+  intro t
+  induction t with
+  | nil =>
+    intro d upd h
+    have : d = [] := List.eq_nil_of_length_eq_zero (by simpa using h)
+    subst this; simp [inlineTwinOf, loadPhases]
+  | cons ph t ih =>
+    intro d upd h
+    cases d with
+    | nil => simp at h
+    | cons objs d =>
+      have h' : d.length = t.length := by simpa using h
+      have := ih d upd h'
+      simp only [inlineTwinOf, List.zip_cons_cons, List.map_cons, loadPhases, loadSlices] at this ⊢
+      rw [this]
+
+omit [DecidableEq Name] in
+/-- The inline twin has the classes of the sliced ObjectSet. -/
+theorem inlineTwinOf_cls : ∀ (t : Template Name) (d : List (List Obj)),
+    d.length = t.length → (inlineTwinOf t d).map (·.cls) = t.map (·.cls) := by
+  intro t
+  induction t with
+  | nil => intro d _; simp [inlineTwinOf]
+  | cons ph t ih =>
+    intro d h
+    cases d with
+    | nil => simp at h
+    | cons objs d =>
+      have h' : d.length = t.length := by simpa using h
+      have := ih d h'
+      simp only [inlineTwinOf, List.zip_cons_cons, List.map_cons] at this ⊢
+      rw [this]
+
+/-- Re-labelling the classes of a template. -/
+def withCls (f : Phase Name → Bool) (t : Template Name) : Template Name := t.map fun p => { p with cls := f p }
+
+/-- The slice loader does not look at a phase's class. -/
+theorem loadPhases_withCls (f : Phase Name → Bool) : ∀ (t : Template Name) (st : Store Name) (upd : List Name),
+    loadPhases st upd (withCls f t) = loadPhases st upd t := by
+  intro t
+  induction t with
+  | nil => intro st upd; rfl
+  | cons ph t ih =>
+    intro st upd
+    simp only [withCls, List.map_cons, loadPhases] at ih ⊢
+    cases loadSlices st upd ph.objects ph.slices with
+    | mk st1 rest =>
+      obtain ⟨upd1, objs, ok⟩ := rest
+      cases ok with
+      | false => simp
+      | true => simp only; rw [ih]
+
+/-- Neither does the decoding. -/
+theorem decode_withCls (f : Phase Name → Bool) (st : Store Name) : ∀ (t : Template Name),
+    decode st (withCls f t) = decode st t := by
+  intro t
+  induction t with
+  | nil => rfl
+  | cons ph t ih =>
+    simp only [withCls, List.map_cons, decode, decodePhase] at ih ⊢
+    rw [ih]
+
+/-! ### delegated phases -/
+
+omit [DecidableEq Name] in
+theorem phaseInfosFrom_objs (cls : List Bool) (rem : List RState) : ∀ (ps : List (List Obj)) (k : Nat),
+    (phaseInfosFrom cls rem k ps).flatMap (·.2.2) = ps.flatten := by
+  intro ps
+  induction ps with
+  | nil => intro k; rfl
+  | cons p ps ih => intro k; simp [phaseInfosFrom, ih]
+
+/-- `reconcileCalls` walks over a prefix of phases without class (one in-process call each, never stopping)
+and then continues with the rest. -/
+theorem reconcileCalls_local_prefix (cls : List Bool) (rem : List RState) :
+    ∀ (dpre rest : List (List Obj)) (k : Nat),
+    (∀ j, k ≤ j → j < k + dpre.length → cls.getD j false = false) →
+    ∃ cs, reconcileCalls (phaseInfosFrom cls rem k (dpre ++ rest)) =
+      (cs ++ (reconcileCalls (phaseInfosFrom cls rem (k + dpre.length) rest)).1,
+       (reconcileCalls (phaseInfosFrom cls rem (k + dpre.length) rest)).2) := by
+  intro dpre
+  induction dpre with
+  | nil => intro rest k _; exact ⟨[], by simp⟩
+  | cons p dpre ih =>
+    intro rest k h
+    have hk : cls.getD k false = false := h k (Nat.le_refl _) (by simp)
+    obtain ⟨cs, hcs⟩ := ih rest (k + 1) (fun j h1 h2 => h j (by omega) (by simp only [List.length_cons]; omega))
+    refine ⟨{ teardown := false, phase := k, objects := p } :: cs, ?_⟩
+    have e : k + 1 + dpre.length = k + (p :: dpre).length := by simp only [List.length_cons]; omega
+    simp only [List.cons_append, phaseInfosFrom, hk, Bool.false_eq_true, ↓reduceIte, reconcileCalls, hcs, e]
+
+theorem decode_append {st : Store Name} : ∀ {a b : Template Name} {d : List (List Obj)},
+    decode st (a ++ b) = some d →
+    ∃ da db, decode st a = some da ∧ decode st b = some db ∧ d = da ++ db := by
+  intro a
+  induction a with
+  | nil => intro b d h; exact ⟨[], d, rfl, by simpa using h, rfl⟩
+  | cons ph a ih =>
+    intro b d h
+    simp only [List.cons_append, decode] at h
+    cases hp : decodePhase st ph with
+    | none => simp [hp] at h
+    | some x =>
+      cases hd : decode st (a ++ b) with
+      | none => simp [hp, hd] at h
+      | some r =>
+        simp only [hp, hd, Option.some.injEq] at h
+        obtain ⟨da, db, h1, h2, rfl⟩ := ih hd
+        exact ⟨x :: da, db, by simp [decode, hp, h1], h2, by simp [← h]⟩
+
 end Pko.Lemmas.C14
